@@ -86,6 +86,7 @@ func (CSVDatabaseReporter).Flush returns (err)
 
 func CSVLog returns (err)
   props C08 C09 C10 C17
+  requires @streams logStream != nil
   requires @sink c.ReporterConfig.Output != nil && !typeis(c.ReporterConfig.Output, "*bufio.Writer") && !typeis(c.ReporterConfig.Output, "*encoding/csv.Writer") && TreeInv()
   modifies *
   modifies ghost(cbLen, cbErr, cbNode, cbStop, cbRet, cbLineNo, cbLine, cbHeader, cbElems, cbNElems, scRd, scPos, privLo, evOf, accKey, accP, accN, accH, bufSink, bufSticky, sinkFailed, sinkPend, prLen, prSink, prArg, prArgs, csvLen, csvW, csvN, csvRow, tnodes, tdepth, tmax, tmapOf, jlen)
@@ -100,6 +101,7 @@ func CSVLog returns (err)
 // csv database: the raw book, one row per entry in file order
 func CSVDatabase returns (err)
   props C08 C09 C10 C17
+  requires @streams dbStream != nil
   requires @sink cdc.ReporterConfig.Output != nil && !typeis(cdc.ReporterConfig.Output, "*bufio.Writer") && !typeis(cdc.ReporterConfig.Output, "*encoding/csv.Writer")
   calluse ParseStreamCallback#1 csvdb
   modifies ghost(cbLen, cbErr, cbNode, cbStop, cbRet, cbLineNo, cbLine, cbHeader, cbElems, cbNElems, scRd, scPos, privLo, evOf, accKey, accP, accN, accH, bufSink, bufSticky, sinkFailed, sinkPend, prLen, prSink, prArg, prArgs, csvLen, csvW, csvN, csvRow, tnodes, tdepth, tmax, tmapOf, jlen)
@@ -113,6 +115,7 @@ func CSVDatabase returns (err)
 // csv database-resolved: one row per (recipe, resolved element), recipes in strictly increasing order
 func CSVDatabaseResolved returns (err)
   props C08 C09 C10 C17 C05 C13
+  requires @streams dbStream != nil
   requires @sink cdc.ReporterConfig.Output != nil && !typeis(cdc.ReporterConfig.Output, "*bufio.Writer") && !typeis(cdc.ReporterConfig.Output, "*encoding/csv.Writer")
   calluse Resolve#1 any
   modifies *
